@@ -51,6 +51,87 @@ def same_state(a, b):
     return None
 
 
+def spec_std(nf, re, obs):
+    """the documented noise model sqrt(nf^2 + (re |d_obs|)^2), plain numpy; None when neither is given"""
+    if nf is None and re is None:
+        return None
+    out = np.zeros(obs.shape)
+    if nf is not None:
+        out = out + np.broadcast_to(np.asarray(nf, dtype=float), obs.shape) ** 2
+    if re is not None:
+        out = out + (np.broadcast_to(np.asarray(re, dtype=float), obs.shape) * np.abs(obs)) ** 2
+    return np.sqrt(out)
+
+
+def close(got, want):
+    """both None, or equal shapes after broadcasting the specified value to the shape of what was read, and equal values (NaN == NaN)"""
+    if got is None or want is None:
+        return got is None and want is None
+    got, want = np.asarray(getattr(got, 'data', got), dtype=float), np.asarray(want, dtype=float)
+    if want.size == 1:
+        return got.size == 1 and abs(float(got.ravel()[0]) - float(want.ravel()[0])) <= 1e-12 * abs(float(want.ravel()[0]))
+    try:
+        want = np.broadcast_to(want, got.shape)
+    except ValueError:
+        return False
+    return bool(np.allclose(got, want, rtol=1e-12, atol=0, equal_nan=True))
+
+
+def assignment_histories(seed):
+    """explicit assignments are the ONLY thing that changes noise floor / relative error, and they do change them: after every assignment in a
+    history (arrays of every broadcastable shape, scalars, size-one arrays, None, in every order) the getters return what was assigned last, the
+    other parameter is what it was, the standard deviation is the documented formula of the two, and copy() / select() carry the same."""
+    cases = 0
+    for shape in ((2, 3, 2), (1, 1, 1), (1, 2, 1)):
+        ns, nr, nfq = shape
+        rng = np.random.default_rng(seed + 7 * ns + nr)
+
+        def val(kind, lo, hi):
+            if kind is None:
+                return None
+            if kind == 'scalar':
+                return float(rng.uniform(lo, hi))
+            if kind == 'one':
+                return rng.uniform(lo, hi, (1, 1, 1))
+            return rng.uniform(lo, hi, {'src': (ns, 1, 1), 'rec': (1, nr, 1), 'freq': (1, 1, nfq), 'full': shape}[kind])
+        order = ['full', 'scalar', 'rec', None, 'freq', 'one', 'src', 'scalar', 'full', None, 'scalar', 'one', 'rec']
+        for first in ('noise_floor', 'relative_error'):
+            survey, obs, nf, re, _ = make_survey(shape, seed + 50 + cases, 'src', 'full')
+            cur = dict(noise_floor=nf, relative_error=re)
+            for step, kind in enumerate(order):
+                cases += 1
+                name = first if step % 3 != 2 else ('relative_error' if first == 'noise_floor' else 'noise_floor')
+                v = val(kind, 0.01, 0.2)
+                setattr(survey, name, None if v is None else (v.copy() if np.ndim(v) else v))
+                cur[name] = v
+                lab = dict(shape=shape, step=step + 1, assigned=f'{name} = {kind}', history=[f'{first if i % 3 != 2 else "the other one"} = {k}' for i, k in enumerate(order[:step + 1])])
+                for nm in ('noise_floor', 'relative_error'):
+                    if not close(getattr(survey, nm), cur[nm]):
+                        return dict(cases=cases, clause=f'{nm} read back after an explicit assignment is not the value assigned last', got=str(getattr(survey, nm))[:200],
+                                    want=str(cur[nm])[:200], **lab)
+                want = spec_std(cur['noise_floor'], cur['relative_error'], obs)
+                for what, s in (('survey', survey), ('copy()', survey.copy()),
+                                ('select(all names)', survey.select(sources=list(survey.sources), receivers=list(survey.receivers), remove_empty=False))):
+                    got = s.standard_deviation
+                    if (got is None) != (want is None):
+                        return dict(cases=cases, clause=f'standard deviation of {what}: None iff neither noise floor nor relative error is set', **lab)
+                    if want is not None:
+                        g = np.asarray(got.data)
+                        m = np.isfinite(want)
+                        if g.shape != tuple(shape) or np.abs(g[m] - want[m]).max() > 1e-12 * np.abs(want[m]).max():
+                            return dict(cases=cases, clause=f'standard deviation of {what} after an explicit assignment is not sqrt(nf^2 + (re |d|)^2) of the values assigned last',
+                                        max_rel_dev=float(np.abs(g[m] - want[m]).max() / np.abs(want[m]).max()) if g.shape == tuple(shape) else 'shape', **lab)
+                    for nm in ('noise_floor', 'relative_error'):
+                        if what != 'survey' and not close(getattr(s, nm), cur[nm]):
+                            return dict(cases=cases, clause=f'{nm} of {what} is not the value assigned last to the original', **lab)
+                if ns > 1:
+                    sel = survey.select(sources=list(survey.sources)[1:], remove_empty=False)
+                    got = sel.standard_deviation
+                    if want is not None and (got is None or not np.allclose(np.asarray(got.data), want[1:], rtol=1e-12, atol=0, equal_nan=True)):
+                        return dict(cases=cases, clause='standard deviation of a selection is not the sub-cube of sqrt(nf^2 + (re |d|)^2) of the values assigned last', **lab)
+    return dict(cases=cases)
+
+
 def check(tier='quick', seed=0):
     import emg3d
     cases = 0
@@ -117,33 +198,64 @@ def check(tier='quick', seed=0):
                     k = same_state(before, noise_state(survey)) or same_state(before, noise_state(cp))
                     if k:
                         return fail(clause=f'copy / to_dict changed or lost {k}', shape=shape, nf=nfk, re=rek, explicit=explicit)
+    # ---- histories of explicit assignments: what is read back, the standard deviation, copies and selections follow the value assigned LAST
+    r = assignment_histories(seed)
+    cases += r.pop('cases')
+    if r:
+        return fail(**r)
     # ---- misfit with a real (tiny) simulation
+    hx = np.ones(8) * 40.0
+    grid = emg3d.TensorMesh([hx, hx, hx], origin=(-160, -160, -200))
+    model = emg3d.Model(grid, 1.0)
+
+    def misfit_case(survey, spec_std, **lab):
+        """spec_std: the standard deviation by the documented formula, computed without the survey (None: explicit array / not recomputed)"""
+        sim = emg3d.Simulation(survey, model, gridding='same', max_workers=1, solver_opts=dict(tol=1e-3, maxit=3), receiver_interpolation='linear')
+        before = noise_state(survey)
+        mf = sim.misfit
+        std = np.asarray(survey.standard_deviation.data)
+        syn, ob_ = np.asarray(sim.data.synthetic.data), np.asarray(sim.data.observed.data)
+        m = np.isfinite(ob_) & np.isfinite(syn)
+        want = 0.5 * np.sum(np.abs(syn[m] - ob_[m]) ** 2 / std[m] ** 2)
+        if abs(mf - want) > 1e-9 * max(1.0, abs(want)):
+            return fail(clause='misfit == 1/2 sum_finite |syn-obs|^2 / std^2', got=float(mf), want=float(want), **lab)
+        if spec_std is not None:
+            want2 = 0.5 * np.sum(np.abs(syn[m] - ob_[m]) ** 2 / spec_std[m] ** 2)
+            if abs(mf - want2) > 1e-9 * max(1.0, abs(want2)):
+                return fail(clause='misfit == 1/2 sum_finite |syn-obs|^2 / std^2 with std = sqrt(nf^2 + (re |d_obs|)^2) of the noise parameters assigned last',
+                            got=float(mf), want=float(want2), **lab)
+        k = same_state(before, noise_state(survey))
+        if k:
+            return fail(clause=f'evaluating the misfit changed {k}', **lab)
+        sim.clean('computed')
+        mf2 = sim.misfit
+        if abs(mf2 - mf) > 1e-9 * max(1.0, abs(mf)):
+            return fail(clause='misfit after clean(computed) differs (weights corrupted?)', first=float(mf), second=float(mf2), **lab)
+        return None
+
     for explicit in (False, True):
         for nfk, rek in ((('scalar', 'scalar'), ('full', None), (None, 'freq')) if tier == 'quick' else [(a, b) for a in kinds for b in kinds if a or b]):
             cases += 1
             survey, obs, nf, re, sd = make_survey((2, 3, 2), seed + 100 + cases, nfk, rek, explicit)
-            hx = np.ones(8) * 40.0
-            grid = emg3d.TensorMesh([hx, hx, hx], origin=(-160, -160, -200))
-            model = emg3d.Model(grid, 1.0)
             survey.data['observed'].data[...] = obs * 1e-9
             if not explicit and nf is not None:
                 survey.noise_floor = np.asarray(nf) * 1e-9 if np.ndim(nf) else float(nf) * 1e-9
             if explicit:
                 survey.standard_deviation = sd * 1e-9
-            sim = emg3d.Simulation(survey, model, gridding='same', max_workers=1, solver_opts=dict(tol=1e-3, maxit=3), receiver_interpolation='linear')
-            before = noise_state(survey)
-            mf = sim.misfit
-            std = np.asarray(survey.standard_deviation.data)
-            syn, ob_ = np.asarray(sim.data.synthetic.data), np.asarray(sim.data.observed.data)
-            m = np.isfinite(ob_) & np.isfinite(syn)
-            want = 0.5 * np.sum(np.abs(syn[m] - ob_[m]) ** 2 / std[m] ** 2)
-            if abs(mf - want) > 1e-9 * max(1.0, abs(want)):
-                return fail(clause='misfit == 1/2 sum_finite |syn-obs|^2 / std^2', nf=nfk, re=rek, explicit=explicit, got=float(mf), want=float(want))
-            k = same_state(before, noise_state(survey))
-            if k:
-                return fail(clause=f'evaluating the misfit changed {k}', nf=nfk, re=rek, explicit=explicit)
-            sim.clean('computed')
-            mf2 = sim.misfit
-            if abs(mf2 - mf) > 1e-9 * max(1.0, abs(mf)):
-                return fail(clause='misfit after clean(computed) differs (weights corrupted?)', nf=nfk, re=rek, explicit=explicit, first=float(mf), second=float(mf2))
+            d_obs = np.array(survey.data.observed.data, copy=True)       # (make_survey's obs may be the very array the survey holds)
+            spec = None if explicit else spec_std(None if nf is None else np.asarray(nf) * 1e-9, re, d_obs)
+            r = misfit_case(survey, spec, nf=nfk, re=rek, explicit=explicit)
+            if r:
+                return r
+    # misfit after a history of assignments (arrays first, then a scalar / a size-one array / None)
+    for hist in (('full', 'freq', 3e-11, 0.05), ('rec', 'full', np.array([[[2e-11]]]), None), ('src', 'scalar', None, 0.07)):
+        cases += 1
+        survey, obs, nf, re, sd = make_survey((2, 3, 2), seed + 200 + cases, hist[0], hist[1], False)
+        survey.data['observed'].data[...] = obs * 1e-9
+        survey.noise_floor = hist[2]
+        survey.relative_error = hist[3]
+        r = misfit_case(survey, spec_std(hist[2], hist[3], np.array(survey.data.observed.data, copy=True)), history=f'constructed with noise_floor={hist[0]}, relative_error={hist[1]}; then assigned '
+                        f'noise_floor={np.ravel(hist[2]).tolist() if hist[2] is not None else None}, relative_error={hist[3]}')
+        if r:
+            return r
     return dict(reproduced=False, cases=cases)
